@@ -170,9 +170,50 @@ def modelledTags : List (String × String × String) := [
   ,("pkg/object/pipeline/pipeline.go:FlowNode", "alias", "omitempty")
   ,("pkg/object/pipeline/pipeline.go:FlowNode", "namespace", "<none>")
   ,("pkg/object/pipeline/pipeline.go:FlowNode", "jumpIf", "omitempty")
+  ,("pkg/object/globalfilter/globalfilter.go:Spec", "beforePipeline", "omitempty")
+  ,("pkg/object/globalfilter/globalfilter.go:Spec", "afterPipeline", "omitempty")
+  ,("pkg/object/httpserver/spec.go:Spec", "http3", "omitempty")
+  ,("pkg/object/httpserver/spec.go:Spec", "keepAlive", "required")
+  ,("pkg/object/httpserver/spec.go:Spec", "https", "required")
+  ,("pkg/object/httpserver/spec.go:Spec", "autoCert", "omitempty")
+  ,("pkg/object/httpserver/spec.go:Spec", "xForwardedFor", "omitempty")
+  ,("pkg/object/httpserver/spec.go:Spec", "port", "required,minimum=1")
+  ,("pkg/object/httpserver/spec.go:Spec", "clientMaxBodySize", "omitempty")
+  ,("pkg/object/httpserver/spec.go:Spec", "keepAliveTimeout", "omitempty,format=duration")
+  ,("pkg/object/httpserver/spec.go:Spec", "maxConnections", "omitempty,minimum=1")
+  ,("pkg/object/httpserver/spec.go:Spec", "cacheSize", "omitempty")
+  ,("pkg/object/httpserver/spec.go:Spec", "tracing", "omitempty")
+  ,("pkg/object/httpserver/spec.go:Spec", "caCertBase64", "omitempty,format=base64")
+  ,("pkg/object/httpserver/spec.go:Spec", "certBase64", "omitempty,format=base64")
+  ,("pkg/object/httpserver/spec.go:Spec", "keyBase64", "omitempty,format=base64")
+  ,("pkg/object/httpserver/spec.go:Spec", "certs", "omitempty")
+  ,("pkg/object/httpserver/spec.go:Spec", "keys", "omitempty")
+  ,("pkg/object/httpserver/spec.go:Spec", "ipFilter", "omitempty")
+  ,("pkg/object/httpserver/spec.go:Spec", "rules", "omitempty")
+  ,("pkg/object/httpserver/spec.go:Spec", "globalFilter", "omitempty")
+  ,("pkg/object/httpserver/spec.go:Rule", "ipFilter", "omitempty")
+  ,("pkg/object/httpserver/spec.go:Rule", "host", "omitempty")
+  ,("pkg/object/httpserver/spec.go:Rule", "hostRegexp", "omitempty,format=regexp")
+  ,("pkg/object/httpserver/spec.go:Rule", "paths", "omitempty")
+  ,("pkg/object/httpserver/spec.go:Path", "ipFilter", "omitempty")
+  ,("pkg/object/httpserver/spec.go:Path", "path", "omitempty,pattern=^/")
+  ,("pkg/object/httpserver/spec.go:Path", "pathPrefix", "omitempty,pattern=^/")
+  ,("pkg/object/httpserver/spec.go:Path", "pathRegexp", "omitempty,format=regexp")
+  ,("pkg/object/httpserver/spec.go:Path", "rewriteTarget", "omitempty")
+  ,("pkg/object/httpserver/spec.go:Path", "methods", "omitempty,uniqueItems=true,format=httpmethod-array")
+  ,("pkg/object/httpserver/spec.go:Path", "backend", "required")
+  ,("pkg/object/httpserver/spec.go:Path", "headers", "omitempty")
+  ,("pkg/object/httpserver/spec.go:Path", "clientMaxBodySize", "omitempty")
+  ,("pkg/object/httpserver/spec.go:Path", "matchAllHeader", "omitempty")
+  ,("pkg/object/httpserver/spec.go:Header", "key", "required")
+  ,("pkg/object/httpserver/spec.go:Header", "values", "omitempty,uniqueItems=true")
+  ,("pkg/object/httpserver/spec.go:Header", "regexp", "omitempty,format=regexp")
+  ,("pkg/util/ipfilter/ipfilter.go:Spec", "blockByDefault", "required")
+  ,("pkg/util/ipfilter/ipfilter.go:Spec", "allowIPs", "omitempty,uniqueItems=true,format=ipcidr-array")
+  ,("pkg/util/ipfilter/ipfilter.go:Spec", "blockIPs", "omitempty,uniqueItems=true,format=ipcidr-array")
   ]
 
-def modelledValidate : List String := ["pkg/filters/proxy/proxy.go:Spec:pointer", "pkg/filters/proxy/pool.go:ServerPoolSpec:pointer", "pkg/filters/proxy/requestmatch.go:RequestMatcherSpec:pointer", "pkg/filters/proxy/requestmatch.go:MethodAndURLMatcher:pointer", "pkg/filters/proxy/requestmatch.go:StringMatcher:pointer", "pkg/filters/responseadaptor/responseadaptor.go:Spec:pointer", "pkg/protocols/httpprot/httpheader/validator.go:ValueValidator:value", "pkg/filters/ratelimiter/ratelimiter.go:Policy:value", "pkg/filters/ratelimiter/ratelimiter.go:Spec:value", "pkg/util/urlrule/urlrule.go:StringMatch:value", "pkg/filters/validator/validator.go:Spec:value", "pkg/filters/builder/builder.go:Spec:pointer", "pkg/filters/builder/requestbuilder.go:RequestBuilderSpec:pointer", "pkg/filters/builder/responsebuilder.go:ResponseBuilderSpec:pointer", "pkg/resilience/retry.go:RetryPolicy:pointer", "pkg/resilience/circuitbreaker.go:CircuitBreakerPolicy:pointer", "pkg/object/pipeline/pipeline.go:Spec:pointer"]
+def modelledValidate : List String := ["pkg/filters/proxy/proxy.go:Spec:pointer", "pkg/filters/proxy/pool.go:ServerPoolSpec:pointer", "pkg/filters/proxy/requestmatch.go:RequestMatcherSpec:pointer", "pkg/filters/proxy/requestmatch.go:MethodAndURLMatcher:pointer", "pkg/filters/proxy/requestmatch.go:StringMatcher:pointer", "pkg/filters/responseadaptor/responseadaptor.go:Spec:pointer", "pkg/protocols/httpprot/httpheader/validator.go:ValueValidator:value", "pkg/filters/ratelimiter/ratelimiter.go:Policy:value", "pkg/filters/ratelimiter/ratelimiter.go:Spec:value", "pkg/util/urlrule/urlrule.go:StringMatch:value", "pkg/filters/validator/validator.go:Spec:value", "pkg/filters/builder/builder.go:Spec:pointer", "pkg/filters/builder/requestbuilder.go:RequestBuilderSpec:pointer", "pkg/filters/builder/responsebuilder.go:ResponseBuilderSpec:pointer", "pkg/resilience/retry.go:RetryPolicy:pointer", "pkg/resilience/circuitbreaker.go:CircuitBreakerPolicy:pointer", "pkg/object/pipeline/pipeline.go:Spec:pointer", "pkg/object/globalfilter/globalfilter.go:Spec:pointer", "pkg/object/httpserver/spec.go:Spec:pointer", "pkg/object/httpserver/spec.go:Path:pointer", "pkg/object/httpserver/spec.go:Header:pointer"]
 
 def guardTable : List ((String × String × Nat) × String) := [
   (("pkg/filters/builder/builder.go", "Builder.reload", 1), "guard: builderInitOK (template.Must; repaired Validate parses the template)"),
@@ -211,9 +252,9 @@ def guardTable : List ((String × String × Nat) × String) := [
   (("pkg/object/pipeline/pipeline.go", "Spec.ValidateJumpIf", 4), "allow: validation time; converted to an error by the deferred recover() of pipeline.Spec.Validate (facts: recovers)"),
   (("pkg/object/pipeline/pipeline.go", "Spec.Validate", 4), "allow: validation time; converted to an error by the deferred recover() of pipeline.Spec.Validate (facts: recovers)"),
   (("pkg/object/pipeline/pipeline.go", "Pipeline.reload", 3), "allow: re-runs filters.NewSpec / resilience.NewPolicy / kind lookup that pipeline.Spec.Validate already ran on the same document"),
-  (("pkg/object/globalfilter/globalfilter.go", "GlobalFilter.Handle", 1), "not-covered: GlobalFilter is not instantiated by the harness (its before/after pipelines are validated as Pipeline specs)"),
-  (("pkg/object/globalfilter/globalfilter.go", "GlobalFilter.reload", 2), "not-covered: GlobalFilter is not instantiated by the harness (its before/after pipelines are validated as Pipeline specs)"),
-  (("pkg/object/httpserver/spec.go", "Header.initHeaderRoute", 1), "not-covered: HTTPServer harness not built; MustCompile is guarded by format=regexp on Header.regexp"),
+  (("pkg/object/globalfilter/globalfilter.go", "GlobalFilter.Handle", 1), "allow: the handler is always a *pipeline.Pipeline (the only context.Handler implementation the mux mapper hands to httpserver.mux); GlobalFilter is instantiated and served by harness gf"),
+  (("pkg/object/globalfilter/globalfilter.go", "GlobalFilter.reload", 2), "guard: globalFilterInitOK (CreateAndUpdate*PipelineForSpec fails only when supervisor.NewSpec rejects the re-marshalled part that globalfilter.Spec.Validate accepted; panics of Pipeline.Init/Inherit of an instantiated part are pipelineInitOK of that part; harness gf)"),
+  (("pkg/object/httpserver/spec.go", "Header.initHeaderRoute", 1), "guard: httpServerInitOK (regexp.MustCompile(h.Regexp) guarded by format=regexp on Header.regexp: valid_implies_init_ok_HTTPServer; mux built and served by harness http)"),
   (("pkg/object/mqttproxy/broker.go", "newBroker", 1), "not-covered: MQTTProxy harness not built; predicted finding (unknown/repeated packet type, rule without `when`) not reproduced"),
   (("pkg/object/mqttproxy/mqttproxy.go", "MQTTProxy.Init", 1), "not-covered: MQTTProxy harness not built; predicted finding (unknown/repeated packet type, rule without `when`) not reproduced"),
   (("pkg/util/signer/signer.go", "Signer.Verify", 1), "guard: validatorHandleOK (repaired Validator.Spec.Validate requires accessKeys)"),
@@ -227,5 +268,14 @@ def guardTable : List ((String × String × Nat) × String) := [
   (("pkg/supervisor/spec.go", "Supervisor.newSpecInternal", 1), "allow: validation time; Supervisor.NewSpec recovers (facts: recovers); newSpecInternal is not reachable from the admin API validation"),
   (("pkg/supervisor/spec.go", "Supervisor.NewSpec", 3), "allow: validation time; Supervisor.NewSpec recovers (facts: recovers); newSpecInternal is not reachable from the admin API validation")
   ]
+
+/-- the arithmetic core: `A·(T+m) + B < 2^63·B`, `0 ≤ A`, `m ≤ T` ⇒ `A·m·2 < (2^63-1)·B` -/
+theorem fits_core (A T m B : Int) (hA : 0 ≤ A) (hm : m ≤ T)
+    (h : A * (T + m) + B < 9223372036854775808 * B) : A * m * 2 < 9223372036854775807 * B := by
+  have h1 : A * m ≤ A * T := Int.mul_le_mul_of_nonneg_left hm hA
+  rw [Int.mul_add] at h
+  generalize A * m = X at *
+  generalize A * T = Y at *
+  omega
 
 end EgVerif.SpecGuards
